@@ -694,3 +694,9 @@ package participle
 //@ func (*structLexer).GetField [C19]
 //@   requires len(s.indexes) > 0 && s.s != nil && field >= 0
 //@   pure
+
+// The tag lexer hands a token to textScannerTransform only when the scanner reported no error for it.
+//@ func (*tagLexer).Next [C19]
+//@   requires t.scanner != nil
+//@   modifies t.err
+//@   before call participle.textScannerTransform#1: assert t.err == nil [C19]
